@@ -34,6 +34,8 @@ func ruleErrInstanceOwn(c *Ctx, r *R) {
 		switch {
 		case f.Name() == "newError":
 			fn = f
+		case c.partOf(f, "(*runtime).newError", 0):
+			// a step split out of newError itself: evaluated, not stubbed
 		case strings.HasPrefix(f.Name(), "new") && strings.HasSuffix(f.Name(), "Error"), f.Name() == "newErrorObject":
 			hooks[ssaFuncName(f)] = func(in *absInterp, call *ssa.CallCommon, args []aval) (aval, bool) {
 				return fresh(in), true
